@@ -84,7 +84,12 @@ Definition channel_of (t : aty) : bool :=
 Definition is_opt (t : aty) : bool := match t with APath _ NOption _ => true | _ => false end.
 
 (* ---- commands and configuration ---- *)
-Record param := { p_name : str; p_ty : aty }.
+(* how the parameter is bound: a plain identifier (also mut x, ref x), the wildcard _, or a destructuring
+   pattern (Point { x, y }: Point, Wrapper(inner): Wrapper). extract_parameters (command_parser.rs:100) and
+   extract_channels_from_command (channel_parser.rs:33) both look only at Pat::Ident and skip everything else. *)
+Inductive ppat := PatIdent | PatWild | PatDestructure.
+Record param := { p_name : str; p_ty : aty; p_pat : ppat }.
+Definition bound (p : param) : bool := match p_pat p with PatIdent => true | _ => false end.
 (* c_macro_case: the value of rename_all inside the command attribute itself, when present
    (is_tauri_command looks at the attribute path only, so the model never reads it) *)
 Record cmd := { c_name : str; c_macro_case : option str; c_params : list param }.
@@ -95,8 +100,8 @@ Definition configured (cf : cfg) : rule :=
 (* compute_parameter_name with no serde attribute on the parameter or the function *)
 Definition param_key (cf : cfg) (name : str) : outcome str := apply_rule (configured cf) name.
 
-Definition value_params (c : cmd) : list param := filter (fun p => negb (is_injected (p_ty p))) (c_params c).
-Definition chan_params (c : cmd) : list param := filter (fun p => channel_of (p_ty p)) (c_params c).
+Definition value_params (c : cmd) : list param := filter (fun p => bound p && negb (is_injected (p_ty p))) (c_params c).
+Definition chan_params (c : cmd) : list param := filter (fun p => bound p && channel_of (p_ty p)) (c_params c).
 
 Fixpoint mapO {A B} (f : A -> outcome B) (l : list A) : outcome (list B) :=
   match l with
